@@ -1,5 +1,7 @@
 mod c01;
 mod c02;
+mod c03;
+mod dissect;
 mod c04;
 mod c17;
 mod coin;
@@ -19,6 +21,7 @@ fn main() {
     match args.property.as_str() {
         "C01" => c01::run(&mut run),
         "C02" => c02::run(&mut run),
+        "C03" => c03::run(&mut run),
         "C04" => c04::run(&mut run),
         "C17" => c17::run(&mut run),
         other => {
